@@ -2,6 +2,7 @@ import IpcHub.Drv.Util
 import IpcHub.Model.FlvInst
 import IpcHub.Spec.FlvParse
 import IpcHub.Model.FlvAssume
+import IpcHub.Model.FlvJoin
 /-
 Line protocol of property C08 (one output line per input line):
 
@@ -12,6 +13,10 @@ Line protocol of property C08 (one output line per input line):
        → `model=<same|hex|err> dead=<0|1> app=<0|1> spec=<ok|fail> mspec=<ok|fail>` (same: equal to impl=)
        (model: all bytes of NewWriter+NewMuxer fed with the frames; spec: Spec.checkMux on impl=…;
         app: the hypotheses of c08_end_to_end hold for this input)
+  joinat  the keys of mux, plus gop=<0|1> k=<n> [sched=… who=… via=…: the harness's scenario, ignored here]
+       → same answer as mux; model: Model/FlvJoin.joinBytes — muxer tags → FLV cache replay at tag k
+       (Model/FlvCacheM.expected) → the client's writer; spec: Spec.checkJoinedAt on impl=;
+       app: the hypotheses of c08_joiner_end_to_end hold
   wr   cfg=… flags=<n> impl=<hex> t:<tagType>:<time ms>:<data hex>…
        → `model=<hex|err> app=<0|1> spec=<ok|fail> mspec=<ok|fail>`
 -/
@@ -117,7 +122,12 @@ def frameOk (f : Frame) : Bool :=
   decide (-2147483648 ≤ tagTimeMs f ∧ tagTimeMs f < 2147483648) &&
   decide (-8388608 ≤ msOf f.pts - msOf f.dts ∧ msOf f.pts - msOf f.dts < 8388608)
 
-def handleMux (ts : List String) : String :=
+/-- the hypotheses of `c08_joiner_end_to_end` on a carried frame, apart from the time window -/
+def frameFits (f : Frame) : Bool :=
+  (f.mediaType = 0 → f.payload ≠ []) && f.payload.length + 9 < 16777216 &&
+  decide (-8388608 ≤ msOf f.pts - msOf f.dts ∧ msOf f.pts - msOf f.dts < 8388608)
+
+def handleMux (joinAt : Bool) (ts : List String) : String :=
   let kv := kvOf ts
   let frames? := (ts.filter (·.startsWith "f:")).mapM parseFrame
   let codec : VCodec := match get kv "codec" with
@@ -138,7 +148,24 @@ def handleMux (ts : List String) : String :=
       let app := codec ≠ .other && hevcFaithful vm && (want.filter (carried src)).all frameOk &&
                  (want = [] || (videoMetaReady vm && sps.length < 65536 && pps.length < 65536 && vps.length < 65536
                     && asc.length + 2 < 16777216 && date.length < 65536))
-      if get kv "join" == some "1" then
+      if joinAt then
+        match (get kv "k").bind String.toNat? with
+        | none => "bad-op"
+        | some k =>
+          let gop := get kv "gop" == some "1"
+          let cf := want.filter (carried src)
+          let v := joinView src gop cf (k - prefixLen src)
+          let japp := codec ≠ .other && hevcFaithful vm && cf.all frameFits &&
+            v.2.all (fun f => decide (-2147483648 ≤ tagTimeMs f - v.1 ∧ tagTimeMs f - v.1 < 2147483648)) &&
+            (want = [] || (videoMetaReady vm && sps.length < 65536 && pps.length < 65536 && vps.length < 65536
+               && asc.length + 2 < 16777216 && date.length < 65536))
+          match IpcHub.FlvJoin.joinBytes (cfgOf kv) vm am date known frames gop k with
+          | none => s!"model=err dead=0 app={boolStr japp} spec={okStr (checkJoinedAt src want gop k impl)} mspec=fail"
+          | some (bs, dead) =>
+            let sp := checkJoinedAt src want gop k impl
+            if bs = impl then s!"model=same dead={boolStr dead} app={boolStr japp} spec={okStr sp} mspec={okStr sp}"
+            else s!"model={bytesToHex bs} dead={boolStr dead} app={boolStr japp} spec={okStr sp} mspec={okStr (checkJoinedAt src want gop k bs)}"
+      else if get kv "join" == some "1" then
         -- a client that joined the running stream: oracle only (Spec.checkJoined on impl=)
         let cf := frames.filter (carried src)
         let japp := codec ≠ .other && hevcFaithful vm && src.usable && known = 0 && cf.all frameOk &&
@@ -174,7 +201,8 @@ def handleWr (ts : List String) : String :=
   | _, _, _ => "bad-op"
 
 def handle : List String → String
-  | "mux" :: ts => handleMux ts
+  | "mux" :: ts => handleMux false ts
+  | "joinat" :: ts => handleMux true ts
   | "wr" :: ts => handleWr ts
   | _ => "bad-op"
 
